@@ -434,8 +434,137 @@ def main_c26(run):
                       extra={"exhaustive": True})
 
 
+# ---------------------------------------------------------------- C24
+FVARS = {"x": 5, "y": "ab", "z": 3.14159, "w": 8, "n": None, "lst": [1, 2], "neg": -7}
+# (hy source, python source) of field expressions
+FEXPR = [("x", "x"), ("y", "y"), ("z", "z"), ("n", "n"), ("lst", "lst"), ("neg", "neg"), ("(+ x 1)", "(x + 1)"),
+         ("(get lst 0)", "lst[0]"), ('"q"', '"q"'), ("(.upper y)", "y.upper()"), ("[x y]", "[x, y]")]
+FLIT = [("a", "a"), (" ", " "), ("{{", "{{"), ("}}", "}}"), ("\\N{DASH}", "\\N{DASH}"), ("\\n", "\\n"), ("é", "é"),
+        ("\\x41", "\\x41"), (":", ":"), ("!", "!"), ("=", "="), ("\\\\", "\\\\")]
+FSPEC = ["", ">5", "^8", "<6", ".2f", "03d", "+", "x", "s", ">{w}", "{w}", "0{w}", "^{w}.{x}", "{w}{w}", "é>4", ","]
+
+
+def gen_fstring(rng, depth=0):
+    """returns (hy text inside the quotes, python text inside the quotes, well-formed?)"""
+    hy_, py_ = [], []
+    good = True
+    for _ in range(rng.randint(1, 4)):
+        r = rng.random()
+        if r < 0.4:
+            a, b = rng.choice(FLIT)
+            hy_.append(a)
+            py_.append(b)
+            continue
+        he, pe = rng.choice(FEXPR)
+        dbg = rng.random() < 0.15 and he.isalpha()
+        conv = rng.choice(["", "", "!r", "!s", "!a"])
+        spec = rng.choice(FSPEC) if rng.random() < 0.5 else None
+        if spec is not None and "{" in spec and depth >= 1:
+            spec = ">5"
+        mal = rng.random() < 0.12
+        if mal:
+            good = False
+            kind = rng.choice(["conv", "empty", "junk", "brace", "convempty"])
+            if kind == "conv":
+                hy_.append("{" + he + " !z}")
+                py_.append("{" + pe + "!z}")
+            elif kind == "empty":
+                hy_.append("{}")
+                py_.append("{}")
+            elif kind == "junk":
+                hy_.append("{x y}")
+                py_.append("{x y}")
+            elif kind == "brace":
+                hy_.append("}")
+                py_.append("}")
+            else:
+                hy_.append("{" + he + " !}")
+                py_.append("{" + pe + "!}")
+            continue
+        h = "{" + he + (" = " if dbg else "") + (((("" if dbg else " ") + conv)) if conv else "") + \
+            (((" " if conv or not dbg else "") + ":" + spec) if spec is not None else "") + "}"
+        p_ = "{" + pe + (" = " if dbg else "") + conv + ((":" + spec) if spec is not None else "") + "}"
+        hy_.append(h)
+        py_.append(p_)
+    return "".join(hy_), "".join(py_), good
+
+
+def main_c24(run):
+    import hy
+    from hy.errors import HyLanguageError
+    from .reader import enum_bind, file_validate, FALPHA
+    rng = random.Random(run.seed)
+    q = run.quick
+    # the reader's f-string machinery against the spec: all short field texts
+    rows, real = enum_bind(run, 4 if q else 5, FALPHA, ["f", "\"", "{"], "fields")
+    ndis = 0
+    from ..readerlib import same
+    for t, row in rows.items():
+        st, val = real[t]
+        run.case(t, nontrivial=row["st"] == "ok")
+        if row["st"] == "unk":
+            continue
+        if st != row["st"]:
+            ndis += 1
+            if row["st"] in ("lex", "eof") and st == "ok":
+                run.violation("field:" + t, f"malformed f-string {t!r} is read without error", {"text": t})
+            continue
+        if st == "ok" and not any(same(a, b, t) for a, b in zip(row["ch"], val)):
+            run.cov["traces_validated_against_impl"] += 1
+    run.cov["spec_disagreements"] = ndis
+    # evaluation against the equivalent Python f-string
+    cases = []
+    for _ in range(1500 if q else 60000):
+        h, p_, good = gen_fstring(rng)
+        cases.append((h, p_, good))
+    recs, acc, unk, says = file_validate(run, ['f"' + c[0] + '"' for c in cases], "fstrings")
+    nval = 0
+    for i, (h, p_, good) in enumerate(cases, 1):
+        htext = 'f"' + h + '"'
+        ptext = 'f"' + p_ + '"'
+        run.case(htext)
+        try:
+            want = ("ok", eval(ptext, dict(FVARS)))
+        except SyntaxError:
+            want = ("syntax",)
+        except Exception as e:
+            want = ("exc", type(e).__name__)
+        try:
+            got = ("ok", hy.eval(hy.read(htext), dict(FVARS)))
+        except (HyLanguageError, SyntaxError):
+            got = ("syntax",)
+        except Exception as e:
+            got = ("exc", type(e).__name__)
+        spec_st = says[i]["st"]
+        if want[0] == "syntax":
+            if got[0] != "syntax":
+                run.violation("fstr:" + htext, f"{htext!r}: the Python f-string {ptext!r} is a syntax error, Hy gives {got}",
+                              {"text": htext, "python": ptext})
+            else:
+                nval += 1
+        elif got != want:
+            run.violation("fstr:" + htext, f"{htext!r} evaluates to {got}, the Python f-string {ptext!r} to {want}",
+                          {"text": htext, "python": ptext})
+        else:
+            nval += 1
+            if spec_st == "ok":
+                run.cov["traces_validated_against_impl"] += 1
+        if want[0] != "syntax" and spec_st in ("lex", "eof"):
+            raise MachineryError(f"reader spec rejects {htext!r} ({spec_st}) but Python accepts {ptext!r}")
+    run.cov["evaluated_fstrings"] = nval
+    run.sample({"hy": 'f"' + cases[0][0] + '"', "python": 'f"' + cases[0][1] + '"'})
+    run.sample({"hy": 'f"' + cases[7][0] + '"', "python": 'f"' + cases[7][1] + '"'})
+    return run.finish("model_checking",
+                      "f-string structures (literal text with {{ }} and \\N{...}, fields with expressions, = debugging, "
+                      "!s/!r/!a, format specs with nested fields, and malformed fields / conversions) rendered as Hy and as "
+                      "Python source; hy.eval of one vs eval of the other; the Hy text is validated by TLC against the "
+                      "reader spec's f-string machinery, which is also enumerated exhaustively on all field texts <= %d "
+                      "characters" % (4 if q else 5),
+                      assumptions=["CPython's f-string evaluation and format() are the reference"])
+
+
 def main(run):
-    return {"C22": main_c22, "C23": main_c23, "C26": main_c26}[run.pid](run)
+    return {"C22": main_c22, "C23": main_c23, "C26": main_c26, "C24": main_c24}[run.pid](run)
 
 
 def replay(run, path):
